@@ -13,12 +13,12 @@
   — including every first-access race (a thread's slot read / `setup_object` / slot write / append in the
   middle of another thread's `get_object`).
 
-  The last clause is NOT a theorem of the code as it is (known finding D31,
-  `C15/teardown-raises-skips-remaining-instances`): `teardown_factory` is a bare `for` loop, so the first
-  raising `teardown_object` ends it and the remaining instances are never torn down.  The full-strength
-  statement `TeardownExactlyOnce` is kept below together with its refutation
-  (`teardown_exactly_once_refuted`, concrete witness) and the `…_partial` theorem under the exact guard
-  "no `teardown_object` call raises".
+  The last clause is a theorem at full strength since /repo commit 8e1157b (fix of D31,
+  `C15/teardown-raises-skips-remaining-instances`): `teardown_factory` now tears down EVERY object and
+  re-raises the first exception after the loop (`teardown_exactly_once`, `teardown_reraises_first_exception`).
+  The loop as it was before that commit (a bare `for`, ended by the first raising `teardown_object`) is kept
+  as `stepLegacy`/`runLegacy` for documentation only: `teardown_exactly_once_refuted_legacy` shows, with a
+  concrete witness, that the OLD loop skipped the remaining instances.
 -/
 import LccModel.Lemmas.Threads
 
@@ -175,23 +175,21 @@ theorem quiescent_objects_are_all_created {s : St} (hs : Reachable s) (hq : Quie
     · rw [hq t] at h; cases h
     · rw [hq t] at h; cases h
 
-/-- One complete `teardown_factory` run.  Preconditions, stated explicitly: it starts when every
-    `get_object` call has completed (`Quiescent s`) and no `get_object` step happens while it runs
-    (`post` consists of teardown steps only) — this is what the runner's on-completion dependencies of the
-    suite / session teardown task guarantee (outside the interrupt defect D11); exactly one run is started
-    in `post` and it has ended (`Quiescent s'`); and NO `teardown_object` call raises.
-    Then the run returned normally and called `teardown_object` exactly once more on every created object
-    and on nothing else; `_objects` is unchanged. -/
-theorem teardown_run_adds_one_partial {s s' : St} {post : List Label}
+/-- One complete `teardown_factory` run, NO guard on raising `teardown_object` calls.  Preconditions, stated
+    explicitly: it starts when every `get_object` call has completed (`Quiescent s`) and no `get_object` step
+    happens while it runs (`post` consists of teardown steps only) — this is what the runner's on-completion
+    dependencies of the suite / session teardown task guarantee (outside the interrupt defect D11); exactly
+    one run is started in `post` and it has ended (`Quiescent s'`), by returning or by re-raising.
+    Then it called `teardown_object` exactly once more on every created object and on nothing else —
+    whether or not some of these calls raised; `_objects` is unchanged. -/
+theorem teardown_run_adds_one {s s' : St} {post : List Label}
     (hs : Reachable s) (hq : Quiescent s)
     (hpost : run s post = .ok s') (htd : ∀ l ∈ post, l.isTd = true)
-    (hone : s'.tdBegins = s.tdBegins + 1) (hq' : Quiescent s')
-    (hnr : ∀ l ∈ post, l.isTdRaise = false) :
-    s'.tdEnds = s.tdEnds + 1 ∧ s'.objects = s.objects ∧ s'.next = s.next ∧
+    (hone : s'.tdBegins = s.tdBegins + 1) (hq' : Quiescent s') :
+    s'.objects = s.objects ∧ s'.next = s.next ∧
     ∀ o, s'.tdCount o = s.tdCount o + (if o < s.next then 1 else 0) := by
   have hi := reachable_inv hs
   obtain ⟨hf, hph⟩ := td_run_phase htd (frame_refl s) (phase_start hq) hpost
-  have hr := noraise_run hnr hpost
   have hcnt : ∀ o, s.objects.count o = if o < s.next then 1 else 0 := by
     intro o
     rw [count_of_nodup hi.objNodup]
@@ -200,34 +198,76 @@ theorem teardown_run_adds_one_partial {s s' : St} {post : List Label}
     · have : ¬ o ∈ s.objects := fun hm => h ((quiescent_objects_are_all_created hs hq o).mp hm)
       simp [h, this]
   cases hph with
-  | notStarted hb _ _ _ _ => omega
-  | running t i _ hp _ _ _ _ => rw [hq' t] at hp; cases hp
-  | finished _ _ hc he _ => exact ⟨he, hf.objects, hf.next, fun o => by rw [hc o, hcnt o]⟩
-  | raised _ _ _ _ _ _ hr' => omega
+  | notStarted _ hb _ _ _ _ _ => omega
+  | running t i _ hp _ _ _ _ _ => rw [hq' t] at hp; cases hp
+  | finished _ _ hc _ _ _ => exact ⟨hf.objects, hf.next, fun o => by rw [hc o, hcnt o]⟩
   | another hb => omega
 
-/-- Clause 4 under the guard "no `teardown_object` raises": `teardown_factory` run once, after all gets
-    have completed (no teardown step before: `pre` contains none), tears every created object down
-    EXACTLY ONCE and nothing else — whatever the interleaving of the `get_object` calls was, including
-    the race where thread B appends between A's slot write and A's append. -/
-theorem teardown_exactly_once_partial {pre post : List Label} {s s' : St}
+/-- Clause 4, full strength: `teardown_factory` run once, after all gets have completed (no teardown step
+    before: `pre` contains none), tears every created object down EXACTLY ONCE and nothing else — whatever
+    the interleaving of the `get_object` calls was (including the race where thread B appends between A's
+    slot write and A's append) and whichever `teardown_object` calls raise. -/
+theorem teardown_exactly_once {pre post : List Label} {s s' : St}
     (hpre : run init pre = .ok s) (hnotd : ∀ l ∈ pre, l.isTd = false) (hq : Quiescent s)
     (hpost : run s post = .ok s') (htd : ∀ l ∈ post, l.isTd = true)
-    (hone : s'.tdBegins = 1) (hq' : Quiescent s')
-    (hnr : ∀ l ∈ post, l.isTdRaise = false) :
+    (hone : s'.tdBegins = 1) (hq' : Quiescent s') :
     ∀ o, s'.tdCount o = if o < s.next then 1 else 0 := by
   obtain ⟨c0, b0, _, _⟩ := get_run_td hnotd hpre
   have hb : s.tdBegins = 0 := b0
   have hc : s.tdCount = fun _ => 0 := c0
-  obtain ⟨_, _, _, h⟩ := teardown_run_adds_one_partial ⟨pre, hpre⟩ hq hpost htd (by omega) hq' hnr
+  obtain ⟨_, _, h⟩ := teardown_run_adds_one ⟨pre, hpre⟩ hq hpost htd (by omega) hq'
   intro o
   rw [h o, hc]; simp
 
-/-- The full-strength last clause: as above but WITHOUT the guard on raising `teardown_object` calls. -/
-def TeardownExactlyOnce : Prop :=
+/-- The first exception is re-raised after the loop, for all interleavings: under the same preconditions
+    the run ends by re-raising iff some `teardown_object` call raised, the exception it re-raises is the
+    one of the FIRST raising call (`firstRaise post`), and it returns normally iff none raised. -/
+theorem teardown_reraises_first_exception {s s' : St} {post : List Label}
+    (_hs : Reachable s) (hq : Quiescent s)
+    (hpost : run s post = .ok s') (htd : ∀ l ∈ post, l.isTd = true)
+    (hone : s'.tdBegins = s.tdBegins + 1) (hq' : Quiescent s') :
+    s'.tdOutcomes = s.tdOutcomes ++ [firstRaise post] ∧
+    (s'.tdRaises = s.tdRaises + 1 ∧ s'.tdEnds = s.tdEnds ↔ ∃ l ∈ post, l.isTdRaise = true) ∧
+    (s'.tdEnds = s.tdEnds + 1 ∧ s'.tdRaises = s.tdRaises ↔ ∀ l ∈ post, l.isTdRaise = false) := by
+  obtain ⟨_, hph⟩ := td_run_phase htd (frame_refl s) (phase_start hq) hpost
+  have hsome := firstRaiseFrom_isSome none post
+  simp only [Option.isSome_none, Bool.false_eq_true, false_or] at hsome
+  cases hph with
+  | notStarted _ hb _ _ _ _ _ => omega
+  | running t i _ hp _ _ _ _ _ => rw [hq' t] at hp; cases hp
+  | another hb => omega
+  | finished _ _ _ he hr ho =>
+    refine ⟨ho, ?_, ?_⟩
+    · by_cases hfr : (firstRaiseFrom none post).isSome = true
+      · simp only [hfr, if_true] at he hr
+        exact ⟨fun _ => hsome.mp hfr, fun _ => ⟨hr, he⟩⟩
+      · simp only [hfr] at he hr
+        constructor
+        · intro ⟨h1, _⟩; simp at hr; omega
+        · intro hex; exact absurd (hsome.mpr hex) hfr
+    · by_cases hfr : (firstRaiseFrom none post).isSome = true
+      · simp only [hfr, if_true] at he hr
+        constructor
+        · intro ⟨h1, _⟩; omega
+        · intro hall
+          obtain ⟨l, hl, hlr⟩ := hsome.mp hfr
+          rw [hall l hl] at hlr; cases hlr
+      · simp only [hfr] at he hr
+        refine ⟨fun _ l hl => ?_, fun _ => ⟨by simpa using he, by simpa using hr⟩⟩
+        cases hlr : l.isTdRaise with
+        | false => rfl
+        | true => exact absurd (hsome.mpr ⟨l, hl, hlr⟩) hfr
+
+/-! ### LEGACY documentation: the loop as it was BEFORE /repo commit 8e1157b (finding D31, fixed)
+
+    Nothing below is about the code as it is.  `runLegacy` folds `stepLegacy`, which differs from `step` in
+    one case: a raising `teardown_object` call ends `teardown_factory` on the spot. -/
+
+/-- LEGACY: clause 4 at full strength, stated for the OLD loop (`runLegacy` during the teardown run). -/
+def TeardownExactlyOnceLegacy : Prop :=
   ∀ (pre post : List Label) (s s' : St),
     run init pre = .ok s → (∀ l ∈ pre, l.isTd = false) → Quiescent s →
-    run s post = .ok s' → (∀ l ∈ post, l.isTd = true) → s'.tdBegins = 1 → Quiescent s' →
+    runLegacy s post = .ok s' → (∀ l ∈ post, l.isTd = true) → s'.tdBegins = 1 → Quiescent s' →
     ∀ o, o < s.next → s'.tdCount o = 1
 
 /-- D31 witness: two threads create one object each (racing: both are inside `get_object` at once), both
@@ -235,133 +275,98 @@ def TeardownExactlyOnce : Prop :=
 def witnessPre : List Label :=
   [.getMiss 0, .setupOk 0 0, .getMiss 1, .setupOk 1 1, .writeSlot 0, .append 0, .getRet 0 0,
    .writeSlot 1, .append 1, .getRet 1 1]
-def witnessPost : List Label := [.tdBegin 0, .tdObj 0 0 false]
+/-- the teardown part of the witness as the OLD loop executed it: over after the raising call -/
+def witnessPostLegacy : List Label := [.tdBegin 0, .tdObj 0 0 false]
+/-- the teardown part of the witness as the code executes it NOW: both objects, then the re-raise -/
+def witnessPost : List Label := [.tdBegin 0, .tdObj 0 0 false, .tdObj 0 1 true, .tdEnd 0 (some 0)]
 
-/-- what the D31 witness leaves behind: `_objects = [0, 1]`, object 0 torn down once (raising), object 1
-    NEVER torn down, `teardown_factory` has ended (by the exception), every thread idle -/
-theorem teardown_raise_skips_remaining_witness :
-    view (run init (witnessPre ++ witnessPost))
-      (fun s => s.objects ++ [s.tdCount 0, s.tdCount 1, s.tdBegins, s.tdEnds, s.tdRaises, s.next])
-    = some ([0, 1] ++ [1, 0, 1, 0, 1, 2]) := by
-  decide
+/-- fold `run` over `pre`, then `runLegacy` over `post` -/
+def runThenLegacy (pre post : List Label) : Except Err St :=
+  match run init pre with
+  | .error e => .error e
+  | .ok s => runLegacy s post
 
-/-- both threads of the witness are idle after `witnessPre` and after the raising teardown; two objects exist -/
-theorem witness_idle :
+/-- LEGACY (before 8e1157b): what the D31 witness left behind under the OLD loop: `_objects = [0, 1]`, object 0
+    torn down once (raising), object 1 NEVER torn down, `teardown_factory` over (by the exception). -/
+theorem teardown_raise_skips_remaining_witness_legacy :
+    view (runThenLegacy witnessPre witnessPostLegacy)
+      (fun s => s.objects ++ [s.tdCount 0, s.tdCount 1, s.tdBegins, s.tdEnds, s.tdRaises, s.next,
+                              if s.pc 0 = .idle then 1 else 0, if s.pc 1 = .idle then 1 else 0])
+    = some ([0, 1] ++ [1, 0, 1, 0, 1, 2, 1, 1]) ∧
     view (run init witnessPre) (fun s => [if s.pc 0 = .idle then 1 else 0, if s.pc 1 = .idle then 1 else 0, s.next])
-      = some [1, 1, 2] ∧
-    view (run init (witnessPre ++ witnessPost))
-      (fun s => [if s.pc 0 = .idle then 1 else 0, if s.pc 1 = .idle then 1 else 0]) = some [1, 1] := by
+      = some [1, 1, 2] := by
   decide
 
-/-- Known finding D31 (`C15/teardown-raises-skips-remaining-instances`): the full-strength last clause is
-    FALSE for the code as it is. -/
-theorem teardown_exactly_once_refuted : ¬ TeardownExactlyOnce := by
+/-- LEGACY (before 8e1157b), finding D31 `C15/teardown-raises-skips-remaining-instances`, now FIXED: for the
+    OLD bare loop the full-strength last clause was false — the first raising `teardown_object` ended the loop
+    and the remaining instances were never torn down.  (For the code as it is see `teardown_exactly_once`.) -/
+theorem teardown_exactly_once_refuted_legacy : ¬ TeardownExactlyOnceLegacy := by
   intro h
-  have hw := teardown_raise_skips_remaining_witness
-  obtain ⟨hi1, hi2⟩ := witness_idle
-  have quies : ∀ (ls : List Label) (s : St), run init ls = .ok s → (∀ l ∈ ls, l.thread = 0 ∨ l.thread = 1) →
-      s.pc 0 = .idle → s.pc 1 = .idle → Quiescent s := by
-    intro ls s hr hth h0 h1 t
-    by_cases e0 : t = 0
-    · subst e0; exact h0
-    · by_cases e1 : t = 1
-      · subst e1; exact h1
-      · have := run_pc_other (t := t) (fun l hl => by rcases hth l hl with a | a <;> omega) hr
-        rw [this]; rfl
+  obtain ⟨hw, hi1⟩ := teardown_raise_skips_remaining_witness_legacy
   cases hpre : run init witnessPre with
   | error e => rw [hpre] at hi1; cases hi1
   | ok s =>
     rw [hpre] at hi1
     simp only [view, Option.some.injEq, List.cons.injEq, and_true] at hi1
     obtain ⟨p0, p1, hn⟩ := hi1
-    have hall : run init (witnessPre ++ witnessPost) = run s witnessPost := by rw [run_append, hpre]
-    cases hpost : run s witnessPost with
-    | error e => rw [hall, hpost] at hw; cases hw
+    have hq : Quiescent s := by
+      intro t
+      by_cases e0 : t = 0
+      · subst e0; split at p0 <;> simp_all
+      · by_cases e1 : t = 1
+        · subst e1; split at p1 <;> simp_all
+        · have := run_pc_other (t := t) (ls := witnessPre)
+            (fun l hl => by
+              have : l.thread = 0 ∨ l.thread = 1 := by revert l; decide
+              omega) hpre
+          rw [this]; rfl
+    simp only [runThenLegacy, hpre] at hw
+    cases hpost : runLegacy s witnessPostLegacy with
+    | error e => rw [hpost] at hw; cases hw
     | ok s' =>
-      rw [hall, hpost] at hw hi2
-      simp only [view, Option.some.injEq, List.cons.injEq, and_true] at hi2
-      obtain ⟨q0, q1⟩ := hi2
-      have hq : Quiescent s := quies _ s hpre (by decide) (by split at p0 <;> simp_all) (by split at p1 <;> simp_all)
-      have hq' : Quiescent s' := quies _ s' (by rw [hall]; exact hpost) (by decide)
-        (by split at q0 <;> simp_all) (by split at q1 <;> simp_all)
+      rw [hpost] at hw
       simp only [view, Option.some.injEq] at hw
-      have hobj : s'.objects = [0, 1] ∧ s'.tdCount 1 = 0 ∧ s'.tdBegins = 1 := by
-        have hl : s'.objects.length = 2 := by
-          have := congrArg List.length hw
-          simp at this; omega
+      have hl : s'.objects.length = 2 := by
+        have := congrArg List.length hw
+        simp at this; omega
+      have hobj : s'.tdCount 1 = 0 ∧ s'.tdBegins = 1 ∧ s'.pc 0 = .idle ∧ s'.pc 1 = .idle := by
         match hs : s'.objects, hl with
-        | [a, b], _ => rw [hs] at hw; simp at hw; simp [hw]
-      have := h witnessPre witnessPost s s' hpre (by decide) hq hpost (by decide) hobj.2.2 hq' 1 (by omega)
+        | [a, b], _ =>
+          rw [hs] at hw; simp at hw
+          obtain ⟨_, _, _, h1, h2, _, _, _, q0, q1⟩ := hw
+          exact ⟨h1, h2, q0, q1⟩
+      have hq' : Quiescent s' := by
+        intro t
+        by_cases e0 : t = 0
+        · subst e0; exact hobj.2.2.1
+        · by_cases e1 : t = 1
+          · subst e1; exact hobj.2.2.2
+          · have := runLegacy_pc_other (t := t) (ls := witnessPostLegacy)
+              (fun l hl => by
+                have : l.thread = 0 := by revert l; decide
+                omega) hpost
+            rw [this]; exact hq t
+      have := h witnessPre witnessPostLegacy s s' hpre (by decide) hq hpost (by decide) hobj.2.1 hq' 1 (by omega)
       omega
-
-/-- What the code does instead (all interleavings): when a `teardown_object` call raises, the single run
-    ends there — exactly the first `i + 1` elements of `_objects` have been torn down once more, the
-    elements behind index `i` are NOT torn down by this run. -/
-theorem teardown_stops_at_first_raise {s s' : St} {post : List Label}
-    (hs : Reachable s) (hq : Quiescent s)
-    (hpost : run s post = .ok s') (htd : ∀ l ∈ post, l.isTd = true)
-    (hone : s'.tdBegins = s.tdBegins + 1) (hq' : Quiescent s')
-    (hraise : s'.tdRaises ≠ s.tdRaises) :
-    ∃ i, i < s.objects.length ∧ s'.tdEnds = s.tdEnds ∧
-      (∀ j o, j ≤ i → s.objects[j]? = some o → s'.tdCount o = s.tdCount o + 1) ∧
-      (∀ j o, i < j → s.objects[j]? = some o → s'.tdCount o = s.tdCount o) := by
-  have hi := reachable_inv hs
-  obtain ⟨hf, hph⟩ := td_run_phase htd (frame_refl s) (phase_start hq) hpost
-  cases hph with
-  | notStarted hb _ _ _ _ => omega
-  | running t i _ hp _ _ _ _ => rw [hq' t] at hp; cases hp
-  | finished _ _ _ _ hr => exact absurd hr hraise
-  | another hb => omega
-  | raised i hlt _ _ hc he _ =>
-    refine ⟨i, hlt, he, ?_, ?_⟩
-    · intro j o hj ho
-      rw [hc o]
-      have hm : o ∈ s.objects.take (i + 1) := by
-        apply List.mem_iff_getElem?.mpr
-        exact ⟨j, by rw [List.getElem?_take]; simp [show j < i + 1 by omega, ho]⟩
-      have hnd : (s.objects.take (i + 1)).Nodup := (List.take_sublist _ _).nodup hi.objNodup
-      rw [count_of_nodup hnd]; simp [hm]
-    · intro j o hj ho
-      rw [hc o]
-      have hnm : ¬ o ∈ s.objects.take (i + 1) := by
-        intro hm
-        obtain ⟨k, hk⟩ := List.mem_iff_getElem?.mp hm
-        rw [List.getElem?_take] at hk
-        split at hk
-        · rename_i hki
-          have hkl : k < s.objects.length := by
-            apply Classical.byContradiction; intro hge
-            rw [List.getElem?_eq_none_iff.mpr (by omega)] at hk; cases hk
-          have hjl : j < s.objects.length := by
-            apply Classical.byContradiction; intro hge
-            rw [List.getElem?_eq_none_iff.mpr (by omega)] at ho; cases ho
-          have e1 : s.objects[k] = o := by
-            rw [List.getElem?_eq_getElem hkl] at hk; injection hk
-          have e2 : s.objects[j] = o := by
-            rw [List.getElem?_eq_getElem hjl] at ho; injection ho
-          have := (List.getElem_inj (h₀ := hkl) (h₁ := hjl) hi.objNodup).mp (e1.trans e2.symm)
-          omega
-        · cases hk
-      rw [List.count_eq_zero.mpr hnm]; rfl
 
 /-! ### Clause 5 (documentation of behaviour, not part of the property): calling `teardown_factory` twice -/
 
-/-- `_objects` is never cleared: a SECOND complete non-raising `teardown_factory` run tears every created
-    object down a second time.  Not a finding — in the runner every `_PerThreadFixtureResult` is torn
+/-- `_objects` is never cleared: a SECOND complete `teardown_factory` run tears every created object down a
+    second time (raising calls or not).  Not a finding — in the runner every `_PerThreadFixtureResult` is torn
     down once per scope instance (`ScheduledFixtures._teardown_fixture` deletes the result afterwards). -/
 theorem teardown_twice_tears_down_twice {pre post1 post2 : List Label} {s s1 s2 : St}
     (hpre : run init pre = .ok s) (hnotd : ∀ l ∈ pre, l.isTd = false) (hq : Quiescent s)
     (h1 : run s post1 = .ok s1) (htd1 : ∀ l ∈ post1, l.isTd = true)
-    (hone1 : s1.tdBegins = s.tdBegins + 1) (hq1 : Quiescent s1) (hnr1 : ∀ l ∈ post1, l.isTdRaise = false)
+    (hone1 : s1.tdBegins = s.tdBegins + 1) (hq1 : Quiescent s1)
     (h2 : run s1 post2 = .ok s2) (htd2 : ∀ l ∈ post2, l.isTd = true)
-    (hone2 : s2.tdBegins = s1.tdBegins + 1) (hq2 : Quiescent s2) (hnr2 : ∀ l ∈ post2, l.isTdRaise = false) :
+    (hone2 : s2.tdBegins = s1.tdBegins + 1) (hq2 : Quiescent s2) :
     ∀ o, s2.tdCount o = if o < s.next then 2 else 0 := by
   obtain ⟨c0, _, _, _⟩ := get_run_td hnotd hpre
   have hc : s.tdCount = fun _ => 0 := c0
   have hs : Reachable s := ⟨pre, hpre⟩
-  obtain ⟨_, _, hn1, a⟩ := teardown_run_adds_one_partial hs hq h1 htd1 hone1 hq1 hnr1
+  obtain ⟨_, hn1, a⟩ := teardown_run_adds_one hs hq h1 htd1 hone1 hq1
   have hs1 : Reachable s1 := ⟨pre ++ post1, by rw [run_append, hpre]; exact h1⟩
-  obtain ⟨_, _, _, b⟩ := teardown_run_adds_one_partial hs1 hq1 h2 htd2 hone2 hq2 hnr2
+  obtain ⟨_, _, b⟩ := teardown_run_adds_one hs1 hq1 h2 htd2 hone2 hq2
   intro o
   rw [b o, a o, hn1, hc]
   by_cases h : o < s.next <;> simp [h]
@@ -373,7 +378,7 @@ theorem teardown_twice_tears_down_twice {pre post1 post2 : List Label} {s s1 s2 
 def samplePre : List Label :=
   [.getMiss 0, .setupRaise 0, .getMiss 0, .getMiss 1, .setupOk 0 0, .setupOk 1 1, .writeSlot 0,
    .writeSlot 1, .append 1, .getRet 1 1, .append 0, .getRet 0 0, .getHit 1 1, .getHit 0 0]
-def samplePost : List Label := [.tdBegin 2, .tdObj 2 1 true, .tdObj 2 0 true, .tdEnd 2]
+def samplePost : List Label := [.tdBegin 2, .tdObj 2 1 true, .tdObj 2 0 true, .tdEnd 2 none]
 
 /-- the sample is an accepted interleaving; thread B's object precedes A's in `_objects`; hypotheses of
     `teardown_exactly_once_partial` and of clauses 1–3 are met on it with non-trivial content -/
@@ -385,7 +390,25 @@ example :
   decide
 
 example : (∀ l ∈ samplePre, l.isTd = false) ∧ (∀ l ∈ samplePost, l.isTd = true) ∧
-    (∀ l ∈ samplePost, l.isTdRaise = false) := by decide
+    (∀ l ∈ witnessPre, l.isTd = false) ∧ (∀ l ∈ witnessPost, l.isTd = true) := by decide
+
+/-- the D31 witness on the model of the code AS IT IS: BOTH objects are torn down exactly once and the run ends
+    by re-raising the first exception (the one of object 0): hypotheses of `teardown_exactly_once` and of
+    `teardown_reraises_first_exception` are met with a raising `teardown_object` call -/
+example :
+    view (run init (witnessPre ++ witnessPost))
+      (fun s => s.objects ++ [s.tdCount 0, s.tdCount 1, s.tdBegins, s.tdEnds, s.tdRaises, s.tdObjRaises, s.next,
+                              if s.pc 0 = .idle then 1 else 0, if s.tdOutcomes = [some 0] then 1 else 0])
+    = some ([0, 1] ++ [1, 1, 1, 0, 1, 1, 2, 1, 1]) ∧ firstRaise witnessPost = some 0 := by
+  decide
+
+/-- the outcome of `tdEnd` is checked: returning normally, or re-raising the exception of the SECOND raising
+    call, is rejected when object 0's `teardown_object` raised first -/
+example : (match run init (witnessPre ++ [.tdBegin 0, .tdObj 0 0 false, .tdObj 0 1 false, .tdEnd 0 none]) with
+           | .ok _ => none | .error e => some e) = some .outcome ∧
+          (match run init (witnessPre ++ [.tdBegin 0, .tdObj 0 0 false, .tdObj 0 1 false, .tdEnd 0 (some 1)]) with
+           | .ok _ => none | .error e => some e) = some .outcome := by
+  decide
 
 /-- a second `get_object` of a thread that already holds an object is rejected as a miss and a foreign
     object is rejected as a hit (the error branches are real, not absorbed) -/
